@@ -1,6 +1,6 @@
 (* C04 — messages are attributed to the right connection; connections are isolated. *)
 From WD Require Import Base Wire Protocol Conn Color LetterId Matcher MatcherParse Show Session.
-From WD Require Import LetterIdProofs SessionProofs ConnMgrProofs.
+From WD Require Import LetterIdProofs SessionProofs ConnMgrProofs IsolationRuns.
 Open Scope Z_scope.
 
 (* connections are named A, B, C, ... in order of opening, in every reachable state, for any event
@@ -31,6 +31,48 @@ Theorem C04_own_state_only : forall P s id rel m i, find_open s id = Some i ->
 Proof. exact conn_message_frame. Qed.
 Print Assumptions C04_own_state_only.
 
+(* WHOLE RUNS.  What is recorded for a connection (role, open flag, title, app id, the whole object
+   table with incarnation numbers, types and alive flags, every recorded message with its resolved
+   target, arguments and destroyed object; NOT its name, and the time stamps only up to the common
+   time origin) in a log in which its lines are interleaved with any other connections' lines, text
+   lines and commands equals what is recorded when its lines are read alone.  Side condition: no
+   line of ANOTHER connection switched decoding off (the documented `except Exception: parse = False`
+   path; corner_abort in IsolationRuns.v shows it is needed); implied by wf_event of every line. *)
+Theorem C04_merged_is_solo : forall P d st c u g evs id,
+  forallb log_event evs = true ->
+  foreign_abort P id (top0 d st c u g) evs = false ->
+  option_map untimed (view_of id (fst (run P (top0 d st c u g) evs))) =
+  option_map untimed (view_of id (fst (run P (top0 d st c u g) (only id evs)))).
+Proof. exact merged_is_solo. Qed.
+Print Assumptions C04_merged_is_solo.
+
+Theorem C04_merged_is_solo_wf : forall P d st c u g evs id,
+  forallb log_event evs = true -> forallb wf_event evs = true ->
+  option_map untimed (view_of id (fst (run P (top0 d st c u g) evs))) =
+  option_map untimed (view_of id (fst (run P (top0 d st c u g) (only id evs)))).
+Proof. exact merged_is_solo_wf. Qed.
+Print Assumptions C04_merged_is_solo_wf.
+
+(* time stamps included, when the solo log is read with the merged log's time origin *)
+Theorem C04_merged_is_solo_timed : forall P d st c u g evs id t0,
+  forallb log_event evs = true -> first_time evs = Some t0 ->
+  foreign_abort P id (top0 d st c u g) evs = false ->
+  view_of id (fst (run P (top0 d st c u g) evs)) =
+  view_of id (fst (run P (mkTop (Some t0) (init_sess d st c u g)) (only id evs))).
+Proof. exact merged_is_solo_timed. Qed.
+Print Assumptions C04_merged_is_solo_timed.
+
+(* two logs in which a connection has the same lines in the same order record the same for it,
+   whatever else they contain and however it is interleaved *)
+Theorem C04_interleaving_irrelevant : forall P d st c u g evs1 evs2 id,
+  forallb log_event evs1 = true -> forallb log_event evs2 = true ->
+  forallb wf_event evs1 = true -> forallb wf_event evs2 = true ->
+  only id evs1 = only id evs2 ->
+  option_map untimed (view_of id (fst (run P (top0 d st c u g) evs1))) =
+  option_map untimed (view_of id (fst (run P (top0 d st c u g) evs2))).
+Proof. exact interleaving_irrelevant_wf. Qed.
+Print Assumptions C04_interleaving_irrelevant.
+
 (* opening: a live connection with the same identifier is closed first and stays listed; the new
    one gets the next name, an empty object table, and exactly one `New ... connection` notice *)
 Theorem C04_open_is_fresh : forall s id sv,
@@ -49,6 +91,11 @@ Print Assumptions C04_eof_only_close_notices.
 
 (* non-vacuity: two tagged connections interleaved, same object ids on both *)
 Definition gr (t : Z) := mkPmsg t (Some (s2l "wl_display")) 1 true (s2l "get_registry") [PObj 2 (Some (s2l "wl_registry")) true].
+Example C04_ex_runs :
+  forallb log_event Examples.merged = true /\ forallb wf_event Examples.merged = true /\
+  view_of Examples.y (fst (run [] Examples.T0 Examples.merged)) <> None /\ only Examples.y Examples.merged <> Examples.merged.
+Proof. vm_compute. repeat split; discriminate. Qed.
+
 Example C04_ex :
   let T := fst (run [] (mkTop None (init_sess (MAlways true) (MAlways false) false true false))
                     [EMsg (s2l "x") (gr 0); EMsg (s2l "y") (gr 5); EMsg (s2l "x") (gr 7); EEof]) in
